@@ -14,8 +14,12 @@ _Bool nondet_bool(void); uint8_t nondet_u8(void);
 _Bool verif_cs(void) { return nondet_bool(); }
 void verif_set_tid(uint32_t t) { verif_os_tid = (int)t; }
 uint32_t verif_get_tid(void) { return (uint32_t)verif_os_tid; }
-void f_K_init(void); uint32_t f_K_timeout_event(uint32_t); uint32_t f_K_is_blocked(uint32_t); uint32_t f_K_can_timeout(uint32_t);
-void f_world_init(void); void f_world_final(uint32_t all_done);
+#ifdef VERIF_NO_K   /* threads that never block (lock-free code): no kernel contract */
+static void f_K_init(void) {} static uint32_t f_K_timeout_event(uint32_t i) { return 0; } static uint32_t f_K_is_blocked(uint32_t i) { return 0; } static uint32_t f_K_can_timeout(uint32_t i) { return 0; } static void f_K_try_unblock(uint32_t i) {}
+#else
+void f_K_init(void); uint32_t f_K_timeout_event(uint32_t); uint32_t f_K_is_blocked(uint32_t); uint32_t f_K_can_timeout(uint32_t); void f_K_try_unblock(uint32_t);
+#endif
+void f_world_init(void); void f_world_final(uint32_t all_done, uint32_t stuck);
 int run_f_thread_entry_0(int); int run_f_thread_entry_1(int);
 #if NT > 2
 int run_f_thread_entry_2(int);
@@ -30,28 +34,41 @@ void f_sched(void) {
   int alive = NT;
   for (int s = 0; s < SLICES; s++) {
     if (!alive) break;
+#define RUNNABLE(i) (st[i] != 0 && (!f_K_is_blocked(i) || f_K_can_timeout(i)))
+    { int anyrun = RUNNABLE(0) || RUNNABLE(1)
+#if NT > 2
+        || RUNNABLE(2)
+#endif
+#if NT > 3
+        || RUNNABLE(3)
+#endif
+        ;
+      if (!anyrun) break; }      /* stuck: judged after the loop (no inner loop here: the slice loop must stay loop 1 for --unwindset) */
     uint8_t t = nondet_u8(); __CPROVER_assume(t < NT && st[t] != 0);
     int r;   /* a blocked thread is chosen only to let its deadline expire */
     /* thread id and instance are constants inside each branch: CURRENT, the frame and the thread object stay concrete
        pointers for the symbolic execution (a symbolic index made the same query 40x slower, DESIGN 2.4) */
-    if (t == 0) { if (f_K_is_blocked(0)) __CPROVER_assume(f_K_timeout_event(0)); verif_os_tid = 0; r = run_f_thread_entry_0(0); st[0] = r; }
-    else if (t == 1) { if (f_K_is_blocked(1)) __CPROVER_assume(f_K_timeout_event(1)); verif_os_tid = 1; r = run_f_thread_entry_1(0); st[1] = r; }
+    if (t == 0) { f_K_try_unblock(0); if (f_K_is_blocked(0)) __CPROVER_assume(f_K_timeout_event(0)); verif_os_tid = 0; r = run_f_thread_entry_0(0); st[0] = r; }
+    else if (t == 1) { f_K_try_unblock(1); if (f_K_is_blocked(1)) __CPROVER_assume(f_K_timeout_event(1)); verif_os_tid = 1; r = run_f_thread_entry_1(0); st[1] = r; }
 #if NT > 2
-    else if (t == 2) { if (f_K_is_blocked(2)) __CPROVER_assume(f_K_timeout_event(2)); verif_os_tid = 2; r = run_f_thread_entry_2(0); st[2] = r; }
+    else if (t == 2) { f_K_try_unblock(2); if (f_K_is_blocked(2)) __CPROVER_assume(f_K_timeout_event(2)); verif_os_tid = 2; r = run_f_thread_entry_2(0); st[2] = r; }
 #endif
 #if NT > 3
-    else if (t == 3) { if (f_K_is_blocked(3)) __CPROVER_assume(f_K_timeout_event(3)); verif_os_tid = 3; r = run_f_thread_entry_3(0); st[3] = r; }
+    else if (t == 3) { f_K_try_unblock(3); if (f_K_is_blocked(3)) __CPROVER_assume(f_K_timeout_event(3)); verif_os_tid = 3; r = run_f_thread_entry_3(0); st[3] = r; }
 #endif
     else r = 1;
     if (r == 0) alive--;
     verif_slices_used++;
   }
+  int stuck = 0;
   if (alive) {
-    /* lost wake-up / deadlock: nobody runnable and no deadline can expire, yet not everybody finished */
-    int stuck = 1;
+    /* nobody runnable and no deadline can expire, yet not everybody finished */
+    stuck = 1;
     for (int i = 0; i < NT; i++) if (st[i] != 0 && (!f_K_is_blocked(i) || f_K_can_timeout(i))) stuck = 0;
-    __CPROVER_assert(!stuck, "no deadlock: an unfinished thread is runnable or can still time out");
+#ifndef VERIF_STUCK_IS_LEGAL   /* for primitives where blocking forever can be legitimate (e.g. a semaphore that is never signalled) the harness judges the stuck state itself */
+    __CPROVER_assert(!stuck, "no deadlock / lost wake-up: an unfinished thread is runnable or can still time out");
+#endif
   }
-  f_world_final(alive == 0);
+  f_world_final(alive == 0, stuck);
   if (alive == 0) __CPROVER_assert(0, "WITNESS: all threads ran to completion within the slice budget");
 }
